@@ -29,6 +29,23 @@ def obligations(tier):
         obs.append(ob("cast.from_" + t, ["H_MODE=3", "H_FROM=%d" % k], s, 600 if fp else 300, "cadical" if fp else None))
         obs.append(ob("cast.from_%s.xBool" % t, ["H_MODE=3", "H_FROM=%d" % k, "H_EXCLUDE_BOOL"], s + " except _Bool",
                       600 if fp else 300, "cadical" if fp else None))
+    # constant folding of the binary integer operators (real check_assign_op against ref/cfold_ref.h)
+    fops = ["and", "or", "xor", "lsh", "rsh", "add", "sub", "mul", "div", "mod"]
+    tn = ["bool", "char", "schar", "uchar", "short", "ushort", "int", "uint", "long", "ulong", "llong", "ullong"]
+    pairs = [(6, 6), (7, 6), (8, 7), (9, 10), (4, 3), (10, 0), (7, 7), (11, 8)]
+    for k, o in enumerate(fops):
+        heavy = o in ("mul", "div", "mod")
+        if heavy:
+            # symbolic operand types in front of a 64-bit multiplier/divider: no verdict in 25 min (z3); type pairs concrete instead
+            for a, b in (pairs if tier != "quick" else pairs[:5]):
+                obs.append(Ob("fold.%s.%s_%s" % (o, tn[a], tn[b]), "C07/fold.c", defs=["H_OP=%d" % k, "H_T1=%d" % a, "H_T2=%d" % b], unwind=13,
+                              loops={"h_cc#0": 13, "memset#0": 17, "memset#1": 130}, object_bits=10, timeout=900, solver="z3", native_cc=NATIVE,
+                              sample="check_assign_op folding `a %s b` for a constant a of type %s and b of type %s, every value: result type and value as C11" % (o, tn[a], tn[b])))
+            continue
+        obs.append(Ob("fold." + o, "C07/fold.c", defs=["H_OP=%d" % k], unwind=13, loops={"h_cc#0": 13, "memset#0": 17, "memset#1": 130},
+                      object_bits=10, timeout=1500 if heavy else 600, solver="z3" if heavy else None, native_cc=NATIVE,
+                      sample="check_assign_op folding `a %s b` for constants a, b of every pair of the 12 integer types and every value of "
+                             "those types: result type and value as C11 defines them (undefined cases excluded)" % o))
     return obs
 
 
